@@ -28,7 +28,7 @@ func c10TierOf(name string) c10Tier {
 	switch name {
 	case "quick":
 		return c10Tier{name: name, nGen: envInt("VERIF_C10_NGEN", 30), nExtra: envInt("VERIF_C10_NEXTRA", 200), K: 3, nSim: envInt("VERIF_C10_NSIM", 360), nNative: envInt("VERIF_C10_NNATIVE", 160), cliK: 3,
-			selfSeeds: 2, selfReps: 10, selfPars: []int{16, 1}, budget: time.Duration(envInt("VERIF_BUDGET_S", 240)) * time.Second}
+			selfSeeds: 2, selfReps: 10, selfPars: []int{16, 1}, budget: time.Duration(envInt("VERIF_BUDGET_S", 900)) * time.Second}
 	case "thorough":
 		return c10Tier{name: name, nGen: envInt("VERIF_C10_NGEN", 320), nExtra: envInt("VERIF_C10_NEXTRA", 1200), K: 8, nSim: envInt("VERIF_C10_NSIM", 14000), nNative: envInt("VERIF_C10_NNATIVE", 3500), cliK: 4,
 			selfSeeds: 3, selfReps: 30, selfPars: []int{1, 4, 16}, budget: time.Duration(envInt("VERIF_BUDGET_S", 1500)) * time.Second}
@@ -455,6 +455,7 @@ func runC10(tierName string) int {
 	}
 	var foundList []found
 	var fmu sync.Mutex
+	tH := time.Now() // the budget bounds the history phase
 	runBatch := func(variant string, n int, tag uint64) {
 		F := map[string]*RefOutcome{}
 		for _, pp := range pool {
@@ -465,7 +466,7 @@ func runC10(tierName string) int {
 		adm := admitted[variant]
 		var done int64
 		parallelDo(n, par, func(i int) {
-			if stopFlag.Load() || time.Since(t0) > tier.budget {
+			if stopFlag.Load() || time.Since(tH) > tier.budget {
 				return
 			}
 			seed := deriveSeed(baseSeed, tag, uint64(i))
@@ -525,9 +526,9 @@ func runC10(tierName string) int {
 			}
 		})
 	}
-	tH := time.Now()
+	tH = time.Now()
+	runBatch("native", tier.nNative, 401) // the smaller batch first: a budget cut must not starve it
 	runBatch("sim", tier.nSim, 400)
-	runBatch("native", tier.nNative, 401)
 	histSecs := time.Since(tH).Seconds()
 	fmt.Printf("histories: %d in %.1fs (cli phase before it ended at %.1fs)\n", A.evals, histSecs, tH.Sub(t0).Seconds())
 
